@@ -299,7 +299,7 @@ debug-level guru
             if ret != 0:
                 logging.warning(
                     f'{GNUPGCONF} --kill failed:\n'
-                    f'{serr.decode("utf8", errors="backslashescape")}')
+                    f'{serr.decode("utf8", errors="backslashreplace")}')
             if not self.debug:
                 # we need to loop due to ENOTEMPTY potential
                 while os.path.isdir(self._home):
